@@ -197,6 +197,10 @@ func joinOr(l []string, sep string) string {
 func genSync(r *rand.Rand, emit func(core.Case), n int, tier string) {
 	for c := 0; c < n; c++ {
 		ops := []string{"s.new"}
+		if r.Intn(4) == 0 { // arrivals go through the reactor (wire bytes, validation, peer stops)
+			ops = append(ops, "s.via on=1")
+			scenHist["via-reactor"]++
+		}
 		scen := []string{"plain", "verdicts", "verdicts", "reject-sender", "lying-peers", "provider", "info"}[r.Intn(7)]
 		scenHist[scen]++
 		// snapshots in the pool: distinct heights mostly (ties end a run early)
@@ -258,7 +262,7 @@ func genSync(r *rand.Rand, emit func(core.Case), n int, tier string) {
 		for k := 0; k < no; k++ {
 			res := "accept"
 			if r.Intn(2) == 0 {
-				res = pick(r, []string{"reject", "reject_format", "reject_sender", "abort", "unknown", "error", "reject", "reject_sender"})
+				res = pick(r, []string{"reject", "reject_format", "reject_sender", "abort", "unknown", "error", "reject", "reject_sender", "deadline"})
 			}
 			offers = append(offers, res+"/"+joinOr(rmsgs(r, top, 3, snaps), ","))
 		}
@@ -293,7 +297,7 @@ func genSync(r *rand.Rand, emit func(core.Case), n int, tier string) {
 			case x == 4:
 				res = "reject_snapshot"
 			case x == 5:
-				res = pick(r, []string{"abort", "unknown", "error"})
+				res = pick(r, []string{"abort", "unknown", "error", "deadline"})
 			}
 			var refetch, rejs []string
 			if r.Intn(4) == 0 {
@@ -319,7 +323,7 @@ func genSync(r *rand.Rand, emit func(core.Case), n int, tier string) {
 			for k := 0; k <= r.Intn(2); k++ {
 				switch r.Intn(6) {
 				case 0:
-					infos = append(infos, "err")
+					infos = append(infos, pick(r, []string{"err", "deadline"}))
 				case 1:
 					infos = append(infos, "echo")
 				case 2:
@@ -551,6 +555,72 @@ func genLcp(r *rand.Rand, emit func(core.Case), n int) {
 	}
 }
 
+func rwire(r *rand.Rand) string {
+	h := []int{0, 1, 2, 3}[r.Intn(4)]
+	switch r.Intn(9) {
+	case 0:
+		return "sq"
+	case 1, 2, 3:
+		return fmt.Sprintf("S/%d/%d/%d/%s/%s", h, 1+r.Intn(2), r.Intn(3), pick(r, []string{"-", "aa", "ab"}), pick(r, metaAlpha))
+	case 4:
+		return fmt.Sprintf("Q/%d/%d/%d", h, 1+r.Intn(2), r.Intn(3))
+	default:
+		return fmt.Sprintf("C/%d/%d/%d/%s/%d", h, 1+r.Intn(2), r.Intn(3), pick(r, []string{"nil", "-", "01", "0202"}), r.Intn(4)/3)
+	}
+}
+
+// genReactor: wire messages from mock peers into the real Reactor.Receive, with and without a
+// syncer attached, on the right and on the wrong channel; the local application serves snapshots
+// (more than recentSnapshots) and chunks.
+func genReactor(r *rand.Rand, emit func(core.Case), n int) {
+	for c := 0; c < n; c++ {
+		ops := []string{"s.new"}
+		var snaps, chunks []string
+		ns := r.Intn(5)
+		if r.Intn(5) == 0 {
+			ns = 9 + r.Intn(5)
+		}
+		seen := map[string]bool{}
+		for k := 0; k < ns; k++ {
+			h, f := 1+r.Intn(7), 1+r.Intn(3)
+			if seen[fmt.Sprint(h, f)] { // the reactor's sort is not stable: equal (height, format) have no defined order
+				continue
+			}
+			seen[fmt.Sprint(h, f)] = true
+			snaps = append(snaps, fmt.Sprintf("%d/%d/%d/%s/%s", h, f, 1+r.Intn(3), pick(r, []string{"aa", "ab"}), pick(r, metaAlpha)))
+		}
+		for k := r.Intn(5); k > 0; k-- {
+			chunks = append(chunks, fmt.Sprintf("%d:%d:%d:%s", 1+r.Intn(3), 1+r.Intn(2), r.Intn(3), pick(r, []string{"nil", "-", "07", "0809"})))
+		}
+		ops = append(ops, fmt.Sprintf("r.app snaps=%s chunks=%s", joinOr(snaps, ";"), joinOr(chunks, ",")))
+		if r.Intn(3) != 0 {
+			ops = append(ops, "r.attach on=1")
+		}
+		for k := 4 + r.Intn(14); k > 0; k-- {
+			m := rwire(r)
+			ch := 0x60
+			if m[0] == 'Q' || m[0] == 'C' {
+				ch = 0x61
+			}
+			switch r.Intn(12) {
+			case 0:
+				ch = 0x60 + r.Intn(2)
+			case 1:
+				ch = 5
+			}
+			ops = append(ops, fmt.Sprintf("r.recv peer=%s ch=%d m=%s", pick(r, peersAlpha), ch, m))
+			if r.Intn(9) == 0 {
+				ops = append(ops, fmt.Sprintf("r.attach on=%d", r.Intn(2)))
+			}
+			if r.Intn(9) == 0 {
+				ops = append(ops, "s.pool")
+			}
+		}
+		ops = append(ops, "s.pool")
+		emit(core.Case{Kind: "reactor", Ops: ops})
+	}
+}
+
 func main() {
 	core.Main(core.Prop{
 		ID:     "C14",
@@ -565,6 +635,7 @@ func main() {
 			genSync(r, emit, 2*n, tier)
 			genVerify(r, emit, n/2)
 			genRace(r, emit, n/10)
+			genReactor(r, emit, n/2)
 			nl := n / 2
 			if nl > 1000 {
 				nl = 1000 // every run opens real TCP connections: keep clear of the ephemeral port range
